@@ -71,26 +71,46 @@ theorem cbin_numpy_integer_counterexample :
     selectM (calibratedAt id (· * ·) (demo true)) 3 2 (.npint 1) (.slice Slice.all) = .ok (.vec [36, 22]) := by
   refine ⟨by decide, by decide⟩
 
-/-- `sr[i]`, `sr[a:b:c]` and `sr[nsel, csel]` on an uncompressed file are NumPy indexing of the calibrated array
-(a lone selector addresses samples and keeps every channel). -/
+/-- `sr[item]` on an uncompressed file is NumPy indexing of the calibrated array: a pair `(nsel, csel)` selects
+on both axes; ANY lone selector — Python int, NumPy integer, slice, list or array of sample indices — addresses
+samples and keeps every channel; a tuple of ints of another length than two is the list of rows it names. -/
 theorem getitem_dispatch {α β γ : Type} (cast : Int → α) (mul : α → γ → β) (r : Rec γ) (hbin : r.cbin = false) :
-    (∀ i : Int, getitemM cast mul r (.single (.int i))
-        = selectM (calibratedAt cast mul r) r.ns r.nc (.int i) (.slice Slice.all)) ∧
-    (∀ s : Slice, getitemM cast mul r (.single (.slice s))
-        = selectM (calibratedAt cast mul r) r.ns r.nc (.slice s) (.slice Slice.all)) ∧
-    (∀ nsel csel : Sel, getitemM cast mul r (.tuple [nsel, csel])
-        = selectM (calibratedAt cast mul r) r.ns r.nc nsel csel) := by
-  refine ⟨fun i => ?_, fun s => ?_, fun a b => ?_⟩ <;>
-    exact readM_bin_eq_selectM cast mul r hbin _ _
+    (∀ nsel : Sel, getitemM cast mul r (.single nsel)
+        = selectM (calibratedAt cast mul r) r.ns r.nc nsel (.slice Slice.all)) ∧
+    (∀ nsel csel : Sel, getitemM cast mul r (.pair nsel csel)
+        = selectM (calibratedAt cast mul r) r.ns r.nc nsel csel) ∧
+    (∀ a b : Int, getitemM cast mul r (.intTuple [a, b])
+        = selectM (calibratedAt cast mul r) r.ns r.nc (.int a) (.int b)) ∧
+    (∀ l : List Int, l.length ≠ 2 → getitemM cast mul r (.intTuple l)
+        = selectM (calibratedAt cast mul r) r.ns r.nc (.list l) (.slice Slice.all)) := by
+  refine ⟨fun s => ?_, fun a b => ?_, fun a b => ?_, fun l hl => ?_⟩
+  · exact readM_bin_eq_selectM cast mul r hbin _ _
+  · exact readM_bin_eq_selectM cast mul r hbin _ _
+  · exact readM_bin_eq_selectM cast mul r hbin _ _
+  · rw [← readM_bin_eq_selectM cast mul r hbin]
+    rw [getitemM_intTuple cast mul r l hl]
+    unfold readM rowsTuple
+    simp only [hbin, Bool.false_eq_true, if_false]
 
-/-- Known finding `lone_list_selector_dispatch`: a lone two-element list is taken for `(nsel, csel)` — `sr[[1, 0]]`
-is the single value `sr[1, 0]`, not rows 1 and 0 — and a lone list of another length yields `None`. -/
-theorem getitem_lone_list_counterexample :
-    getitemM id (· * ·) (demo false) (.single (.list [1, 0])) = .ok (.scalar 36) ∧
-    selectM (calibratedAt id (· * ·) (demo false)) 3 2 (.list [1, 0]) (.slice Slice.all)
-      = .ok (.mat 2 [[36, 22], [6, 2]]) ∧
-    getitemM id (· * ·) (demo false) (.single (.list [0, 1, 2])) = .ok .pyNone := by
-  refine ⟨by decide, by decide, by decide⟩
+/-- Compressed file: the same for the selector kinds mtscomp serves like NumPy (lone list/array sample selectors
+raise NotImplementedError there and are outside the property). -/
+theorem getitem_dispatch_cbin_partial {α β γ : Type} (cast : Int → α) (mul : α → γ → β) (r : Rec γ) :
+    (∀ nsel : Sel, CbinSupported nsel r.ns → getitemM cast mul r (.single nsel)
+        = selectM (calibratedAt cast mul r) r.ns r.nc nsel (.slice Slice.all)) ∧
+    (∀ nsel csel : Sel, CbinSupported nsel r.ns → getitemM cast mul r (.pair nsel csel)
+        = selectM (calibratedAt cast mul r) r.ns r.nc nsel csel) :=
+  ⟨fun _ h => readM_cbin_eq_selectM cast mul r _ _ h, fun _ _ h => readM_cbin_eq_selectM cast mul r _ _ h⟩
+
+/-- After the `fix:` commit 35fb57e a lone list is a list of samples: `sr[[1, 0]]` is rows 1 and 0 of every channel
+(it used to be the single value `sr[1, 0]`), `sr[[0, 1, 2]]` is three rows (it used to be `None`), `sr[np.int64(1)]`
+is row 1 (it used to raise TypeError), and `sr[2, 1, 0]` is rows 2, 1, 0. -/
+theorem getitem_lone_list_rows :
+    getitemM id (· * ·) (demo false) (.single (.list [1, 0])) = .ok (.mat 2 [[36, 22], [6, 2]]) ∧
+    getitemM id (· * ·) (demo false) (.single (.list [0, 1, 2])) = .ok (.mat 2 [[6, 2], [36, 22], [66, 42]]) ∧
+    getitemM id (· * ·) (demo false) (.single (.npint 1)) = .ok (.vec [36, 22]) ∧
+    getitemM id (· * ·) (demo false) (.intTuple [2, 1, 0]) = .ok (.mat 2 [[66, 42], [36, 22], [6, 2]]) ∧
+    getitemM id (· * ·) (demo false) (.intTuple [1, 0]) = .ok (.scalar 36) := by
+  refine ⟨by decide, by decide, by decide, by decide, by decide⟩
 
 /-- `read_samples(first, last, channels)` is the slice `first:last` of the calibrated array on the given channels
 (all channels when `channels is None`), compressed or not (the step is `None`). -/
